@@ -16,7 +16,7 @@ def all_cases(tier):
     for ep, nb, vb, ev, cb, init in itertools.product((0, 1, 2, 3), (1, 2, 3), (None, 1, 2), (None, "binary", "multi-class", "categorical", "multi-class+callbacks"),
                                                        (False, True, "flip", "peek"), ("train", "eval", "train+bn_eval", "eval+dropout_train")):
         out.append({"epochs": ep, "train_batches": nb, "val_batches": vb, "evaluator": ev, "callbacks": cb, "initial_mode": init})
-    return out
+    return out + uneven_cases()
 
 def _data(nb, mode, salt):
     n = nb * BATCH + (2 if nb else 0)            # a few left-over samples that never form a batch
@@ -242,16 +242,72 @@ def judge(case):
         harness.reset_modes(verify=False)
     return {"nontrivial": nt, "outcome": "ok", "violations": viol, "events": len(trace)}
 
+def judge_uneven(case):
+    """user-supplied loaders (any iterable of (inputs..., labels) with a length) whose batches differ in size: the reported epoch
+    loss is the mean of the per-BATCH losses (the statement), not a per-sample average; one update per batch"""
+    sg = harness.load(); nn = sg.nn
+    from synapgrad.nn.utils import train as TR
+    harness.reset_modes(verify=False)
+    viol = []
+    def v(sym, detail):
+        if all(x["kind"] != sym for x in viol): viol.append({"kind": sym, "detail": detail})
+    sizes_t, sizes_v, epochs = case["train_sizes"], case["val_sizes"], case["epochs"]
+    def mk(sizes, salt):
+        out = []
+        for k, n in enumerate(sizes):
+            X = (np.sin(np.arange(n * NF) * 0.41 + salt + k) * 1.5).reshape(n, NF).astype(np.float32)
+            y = (X[:, 0] * (k + 1.0)).astype(np.float32)
+            out.append((sg.Tensor(X), sg.Tensor(y)))
+        return out
+    sg.manual_seed(3)
+    model = nn.Linear(NF, 1)
+    losses = []; steps = [0]
+    class Crit(nn.MSELoss):
+        def __call__(s, yp, yt):
+            r = super().__call__(yp, yt); losses.append((model.training, float(np.asarray(r.data)))); return r
+    class Opt(sg.optim.SGD):
+        def step(s): steps[0] += 1; return super().step()
+    tr = TR.Trainer(model, sg); tr.compile(Crit(), Opt(model.parameters(), lr=0.05), None)
+    try:
+        hist = tr.fit(mk(sizes_t, 1), epochs, mk(sizes_v, 2) if sizes_v else None)
+    except Exception as e:
+        v("fit-raised", f"loaders given as lists of batches of sizes {sizes_t} / {sizes_v}: {type(e).__name__}: {str(e)[:100]}")
+        return {"nontrivial": True, "outcome": "raise", "violations": viol}
+    finally:
+        harness.reset_modes(verify=False)
+    if steps[0] != epochs * len(sizes_t): v("step-count", f"{steps[0]} optimizer steps for {epochs} epochs x {len(sizes_t)} batches of sizes {sizes_t}")
+    per = len(sizes_t) + len(sizes_v or [])
+    for ep in range(epochs):
+        chunk = losses[ep * per: (ep + 1) * per]
+        tl = [l for trn, l in chunk[: len(sizes_t)]]; vl = [l for trn, l in chunk[len(sizes_t):]]
+        if len(hist.get("loss", [])) > ep and tl and abs(float(hist["loss"][ep]) - float(np.mean(tl))) > 1e-5 * max(1.0, abs(np.mean(tl))):
+            v("epoch-loss-not-mean", f"batches of sizes {sizes_t}: epoch {ep} reported loss {hist['loss'][ep]}, mean of the batch losses {np.mean(tl)}")
+        if sizes_v and len(hist.get("val_loss", [])) > ep and abs(float(hist["val_loss"][ep]) - float(np.mean(vl))) > 1e-5 * max(1.0, abs(np.mean(vl))):
+            v("epoch-loss-not-mean", f"validation batches of sizes {sizes_v}: epoch {ep} reported val_loss {hist['val_loss'][ep]}, mean {np.mean(vl)}")
+    return {"nontrivial": True, "outcome": "ok", "violations": viol, "events": len(losses)}
+
+def uneven_cases():
+    out = []
+    for st in ([4, 2, 3], [1, 5], [3], [2, 2, 2, 7]):
+        for sv in (None, [3, 1], [2, 6, 1]):
+            for ep in (1, 2):
+                out.append({"uneven": True, "train_sizes": st, "val_sizes": sv, "epochs": ep})
+    return out
+
+def dispatch(case):
+    return judge_uneven(case) if case.get("uneven") else judge(case)
+
 def replay(case):
     with harness.quiet():
-        return judge(case)["violations"]
+        return dispatch(case)["violations"]
 
 def run(tier, seed):
     cases = all_cases(tier)
     harness.load()
     import synapgrad.nn.utils.train      # import (sklearn, matplotlib) once, before forking
-    r = engine.run_cases(cases, judge)
-    ntrans = sum(c["epochs"] * (c["train_batches"] * 5 + (c["val_batches"] or 0) * 2) for c in cases)
+    r = engine.run_cases(cases, dispatch)
+    ntrans = sum(c["epochs"] * (c["train_batches"] * 5 + (c["val_batches"] or 0) * 2) for c in cases if not c.get("uneven")) \
+             + sum(c["epochs"] * (len(c["train_sizes"]) * 5 + len(c["val_sizes"] or []) * 2) for c in cases if c.get("uneven"))
     cov = {"states": r["evaluations"], "transitions": ntrans, "traces_validated_against_impl": r["evaluations"],
            "evaluations": r["evaluations"], "distinct_nontrivial": r["distinct_nontrivial"], "samples": r["samples"], "exhaustive": True,
            "rule": "epochs {0,1,2,3} x train batches {1,2,3} x validation loader {None,1,2 batches} x evaluator {None, binary, multi-class, "
@@ -259,6 +315,6 @@ def run(tier, seed):
                    "Dropout+Linear; every optimizer.zero_grad/step, model.forward, criterion and backward call is recorded with model.training "
                    "(all submodules) and the probed grad mode and matched against the automaton (forward, loss, zero_grad, backward, step)* "
                    "per batch, eval/no-grad/no-state-change validation, history keys and lengths, epoch loss = mean of batch losses, accuracy "
-                   "recomputed per label mode; test() in both outer grad modes; a second fit() on the same Trainer (1 epoch, no validation loader) has its own history; states = runs, transitions = monitored calls; non-trivial = epochs >= 1"}
+                   "recomputed per label mode; test() in both outer grad modes; a second fit() on the same Trainer (1 epoch, no validation loader) has its own history; plus 24 runs with user-supplied loaders (lists of batches of unequal sizes): one step per batch, epoch loss = mean of the per-batch losses; states = runs, transitions = monitored calls; non-trivial = epochs >= 1"}
     return {"level": "model_checking", "violations": r["violations"], "coverage": cov,
             "assumptions": ["loaders with zero batches are left out (the statement's counts are vacuous there)", "batch size 4; lr 0.05; SGD"]}
